@@ -201,6 +201,9 @@ func (c39) NewRun(plan *simrt.Source, job *harn.Job) harn.Run {
 			if plan.Chance(150) {
 				f.StallAt = 1 + plan.Draw(10)
 			}
+			if plan.Chance(150) {
+				f.HalfCloseAt = 1 + plan.Draw(8)
+			}
 		}
 	}
 	r.net.Desc = fmt.Sprintf("cap=%d faultFree=%v A=%+v B=%+v", r.net.Cap, r.net.FaultFree, r.net.A, r.net.B)
